@@ -25,7 +25,7 @@ RULE = ("cases = curated shapes + random-grammar assignments x random formats x 
 
 PLAN = {
     "quick": dict(shards=12, fmt=8, inp=2, rnd=1500, draws=2, lattice=180, medium=180),
-    "thorough": dict(shards=16, fmt=60, inp=3, rnd=24000, draws=4, lattice=16000, medium=8000),
+    "thorough": dict(shards=16, fmt=60, inp=3, rnd=24000, draws=4, lattice=4800, medium=2400),
 }
 
 
@@ -104,15 +104,15 @@ def shard(rec, tier, index, n_shards):
         rec.count("medium_size_cases")
         do_case(rec, case, one_request=(n % 2 == 0))
         n += 1
-    for case in engine.wide_cases(rng, 8 if tier == "quick" else 300):
+    for case in engine.wide_cases(rng, 8 if tier == "quick" else 60):
         rec.count("wide_cases")
         do_case(rec, case, one_request=(n % 2 == 0))
         n += 1
-    for case in engine.high_order_cases(rng, 6 if tier == "quick" else 400):
+    for case in engine.high_order_cases(rng, 6 if tier == "quick" else 60):
         rec.count("high_order_cases")
         do_case(rec, case, one_request=(n % 2 == 0))
         n += 1
-    for case in engine.huge_dim_cases(rng, 10 if tier == "quick" else 600):
+    for case in engine.huge_dim_cases(rng, 10 if tier == "quick" else 80):
         rec.count("huge_dimension_cases")
         do_case(rec, case, one_request=(n % 2 == 0))
         n += 1
